@@ -47,7 +47,7 @@ func registerC20() {
 		Level: "exploration",
 		Rule: "the constant table is generated at check time from the types.go of the tree under test (go/parser; constants of the generated types declared in other files of the package are included) and compiled into the checker; a case is one (type, value): " +
 			"every constant of every generated type, every remaining value of 8- and 16-bit types, and for 32-bit types all neighbours of constants, every single-bit and two-bit value, every OR / sum / difference of two named values, plus 200000 PRNG values; " +
-			"before any sequential use in the worker process, 8 goroutines make the process's first String() calls of each type at the same moment; non-trivial: String() was called and compared (named value: one of the names without the type prefix; other value: Type(n)); the value checks are repeated in a binary built with GOARCH=386 (32-bit int) when the host can run it; plus regeneration of types_string.go with the repository's own stringer (verif-tagged fitgen; six runs with GOMAXPROCS default, 1, 3, 6, 7, 12, and one with a fitgen built for GOARCH=386) compared byte for byte; plus complete fitgen runs on two bundled workbooks whose types_string.go must equal what the stringer step alone writes for that run's types.go; plus a value-major pass: about 500 numbers each printed through every generated type in rotation (sequentially and from four goroutines), so that what one type printed for a number cannot leak into the next type's answer",
+			"before any sequential use in the worker process, 8 goroutines make the process's first String() calls of each type at the same moment; non-trivial: String() was called and compared (named value: one of the names without the type prefix; other value: Type(n)); the value checks are repeated in a binary built with GOARCH=386 (32-bit int) when the host can run it; plus regeneration of types_string.go with the repository's own stringer (verif-tagged fitgen; six runs with GOMAXPROCS default, 1, 3, 6, 7, 12, and one with a fitgen built for GOARCH=386) compared byte for byte; plus complete fitgen runs on two bundled workbooks (one of them with -verbose) whose types_string.go must equal what the stringer step alone writes for that run's types.go; plus a value-major pass: about 500 numbers each printed through every generated type in rotation (sequentially and from four goroutines), so that what one type printed for a number cannot leak into the next type's answer",
 		Assume:        []string{"Bool (hand-written in types_man.go, prints prefixed names by design) is reported separately and not judged by the generated-type rule"},
 		MinNontrivial: 100000,
 		WorkerProcs:   4,
@@ -343,6 +343,10 @@ func c20Tables(c *lib.Ctx) {
 		os.RemoveAll(out)
 		os.MkdirAll(out, 0o755)
 		full := exec.Command(bin, "-sdk", ver, xlsx, out)
+		if ver == "20.43" {
+			// this one with the command's debugging output switched on
+			full = exec.Command(bin, "-verbose", "-sdk", ver, xlsx, out)
+		}
 		full.Dir = wd
 		if b, err := full.CombinedOutput(); err != nil {
 			c.Violation(nil, "a complete fitgen run on the bundled %s workbook failed: %v: %s", ver, err, tail(b, 400))
